@@ -4,6 +4,8 @@ set -e
 cd "$(dirname "$0")"
 export CARGO_NET_OFFLINE=true
 mkdir -p work/locks evidence replays
-( cd lean && lake build VrpModel VrpProofs && lake build $(grep -A1 '^\[\[lean_exe\]\]' lakefile.toml | grep name | sed 's/name = "\(.*\)"/\1/') )
-( cd harness && [ -f Cargo.lock ] || cp /repo/Cargo.lock . ; cargo build --offline --bins 2>&1 | tail -3 )
+exes=""
+for f in lean/Drv/C[0-9][0-9].lean; do n=$(basename $f .lean); exes="$exes drv_$(echo $n | tr 'C' 'c')"; done
+( cd lean && lake build VrpModel VrpProofs $exes )
+( cd harness && { [ -f Cargo.lock ] || cp /repo/Cargo.lock . ; } ; cargo build --offline --bins 2>&1 | tail -3 )
 echo "setup done"
